@@ -45,6 +45,9 @@ def multigraph_scenario(rnd, sid):
         links.append({"name": "P%d" % k, "type": "pipe", "a": a, "b": b, "len": netgen.rgrid(rnd, 100, 800, 50),
                       "diam": rnd.choice([0.2, 0.3]), "rough": 100.0, "minor": 0.0, "cv": False, "init": rnd.choice([1, 1, 1, 0])})
     s["links"] = links
+    if rnd.random() < 0.15:
+        # a junction that no link touches, created after all the others: cut off for ever, reported as zeros
+        s["nodes"].append(c02.junction("JZ", 5.0, [{"base": 0.002, "pat": ""}]))
     H = s["H"]
     steps = rnd.randint(4, 7)
     s["Dur"] = H * steps
